@@ -108,6 +108,7 @@ type Exec struct {
 	cellN   int
 	cellCache map[*ssa.Alloc]bool
 	usedLemmas []string
+	usedContracts map[string]bool
 }
 
 const maxForks = 6000
@@ -1079,6 +1080,9 @@ func litBig(s string) (*big.Int, bool) {
 // arith builds the result of a wrapping +,-,* : the wrap is omitted when static bounds show it is the identity.
 func (x *Exec) arith(t types.Type, op string, a, b Val) Val {
 	term := sx(op, a.T, b.T)
+	if op == "*" {
+		term = mulT(a.T, b.T)
+	}
 	res := Val{K: KInt, Typ: t}
 	alo, ahi, ok1 := a.bounds()
 	blo, bhi, ok2 := b.bounds()
